@@ -115,10 +115,15 @@ def install_probes():
             base_s = reftok.digest(reftok.tree_struct(exprs)) if isinstance(
                 exprs, list) else None
             origin = None
+            keys = []
             for key in _simp_keys(simp):
-                origin = rec.simp_origin.get(key)
-                if origin is not None:
-                    break
+                keys.append(repr(key[0]))
+                if origin is None:
+                    origin = rec.simp_origin.get(key)
+            tid = rec.cur_task.get(_actor())
+            # identity of a ddmin task: (round = number of task generators
+            # constructed so far, task id within the round)
+            simp_fp = f'{len(rec.rounds)}/{tid}' if tid is not None else None
             r = orig(exprs, simp)
             if base is not None and isinstance(r, list):
                 rec.applies.append((rec.seq(), _actor(), rec.dig(base),
@@ -126,7 +131,7 @@ def install_probes():
                                     len(simp.substs) if hasattr(
                                         simp, 'substs') else -1, origin,
                                     reftok.digest(reftok.tree_struct(r)),
-                                    base_s))
+                                    base_s, simp_fp))
             return r
 
         apply_simp.__wrapped__ = orig
@@ -136,6 +141,33 @@ def install_probes():
     for mod in (m.ddmin, m.hier):
         if hasattr(mod, 'apply_simp'):
             setattr(mod, 'apply_simp', m.mutator_utils.apply_simp)
+
+    # -- ddmin worker: which task is being processed ----------------------------
+    def mk_worker(orig):
+
+        def _worker(task, *a, **k):
+            rec = CTX.rec
+            if rec is None:
+                return orig(task, *a, **k)
+            actor = _actor()
+            prev = rec.cur_task.get(actor)
+            rec.cur_task[actor] = getattr(task, 'id', None)
+            try:
+                return orig(task, *a, **k)
+            finally:
+                rec.cur_task[actor] = prev
+                if actor == 'main':
+                    rec.last_task_main = getattr(task, 'id', None)
+
+        _worker.__wrapped__ = orig
+        # the function is sent to the pool by reference: it must be found
+        # under its own name in its module
+        _worker.__module__ = orig.__module__
+        _worker.__qualname__ = orig.__qualname__
+        _worker.__name__ = orig.__name__
+        return _worker
+
+    _wrap_module_attr(m.ddmin, '_worker', mk_worker)
 
     # -- check_exprs ------------------------------------------------------------
     def mk_check(orig):
@@ -202,6 +234,9 @@ def install_probes():
                 'actor': _actor(),
                 'dig': dig,
                 'sdig': sdig,
+                # ddmin: (round, id) of the task whose result main holds
+                'ddmin_task': f'{len(rec.rounds)}/{rec.last_task_main}'
+                if rec.last_task_main is not None else None,
                 'seq0': rec.seq(),
                 'seq1': None,
                 'completed': False,
@@ -444,7 +479,8 @@ def _mk_mut_wrapper(cname, meth, f):
             rec.consulted[cname] += 1
             fl = CTX.faults
             if fl is not None:
-                fl.maybe_mutator_fault(cname, meth)
+                fl.maybe_mutator_fault(cname, meth,
+                                       sys._getframe(1).f_code.co_name)
         r = f(self, *a, **k)
         if rec is None or meth == 'filter' or r is None:
             return r
@@ -466,7 +502,8 @@ def _mk_mut_wrapper(cname, meth, f):
             rec.consulted[cname] += 1
             fl = CTX.faults
             if fl is not None:
-                fl.maybe_mutator_fault(cname, meth)
+                fl.maybe_mutator_fault(cname, meth,
+                                       sys._getframe(1).f_code.co_name)
         for simp in f(self, *a, **k):
             if rec is not None:
                 note(rec, simp)
